@@ -51,6 +51,7 @@ UpperFirst(s) == IF s # "" /\ Ch(s, 1) \in Lower THEN UpperMap[Ch(s, 1)] \o Tail
 AllIn(s, set) == \A i \in 1..Len(s) : Ch(s, i) \in set
 HasCh(s, c)   == \E i \in 1..Len(s) : Ch(s, i) = c
 StartsWith(s, p) == Len(s) >= Len(p) /\ SubSeq(s, 1, Len(p)) = p
+EndsWith(s, p) == Len(s) >= Len(p) /\ SubSeq(s, Len(s) - Len(p) + 1, Len(s)) = p
 Drop(s, n)    == SubSeq(s, n + 1, Len(s))
 
 (* The FHIR id datatype: [A-Za-z0-9\-\.]{1,64} *)
